@@ -110,7 +110,7 @@ def parse_output(text, res):
 
 
 def run(module, cfg, workdir, *, workers=16, env=None, simulate=None, depth=None, seed=None,
-        timeout=3600, dfs=False, heap="12g", coverage=False, extra=(), libs=(), cwd=None,
+        timeout=3600, dfs=False, heap="8g", coverage=False, extra=(), libs=(), cwd=None,
         deadlock=None, dump=None):
     """Run TLC on specs/<module>.tla (or an absolute path) with config cfg."""
     os.makedirs(workdir, exist_ok=True)
